@@ -62,3 +62,17 @@ Theorem C19_create_solution_container_instruction : forall cf name solutes k m k
     snd a = BL /\ denotes3 a == total_in cf (cont k) (P0, BL) - total_in cf (cont k') (P0, BL).
 Proof. exact solution_c_instr_true. Qed.
 Print Assumptions C19_create_solution_container_instruction.
+
+(* create_solution_from with a pure solvent: "Add y mL of <solvent> to x mL of <source>." -- the source loses x mL, and the new
+   solution holds y mL of solvent beyond the share f of the source's own solvent that came with the aliquot *)
+Require Import CsfInstr.
+Theorem C19_create_solution_from_instruction : forall cf src solute solvent c q name src' new,
+  Inv cf src -> wf_subst solvent -> is_enzyme solvent = false ->
+  create_solution_from cf src solute c solvent q name = Ok (src', new) ->
+  exists mx x y, mix_of cf src solute = Ok mx /\
+    csf_solve mx {| m_d := dens solvent; m_mw := mw solvent; m_m := 0 |} solute c q = Ok (x, y) /\
+    total_in cf (cont src) (P0, BL) - total_in cf (cont src') (P0, BL) == x * (1 # 1000) /\
+    exists f, (forall k, get k (cont src') == get k (cont src) * (1 - f)) /\
+      conv_stored cf solvent (get solvent (cont new) - get solvent (cont src) * f) (P0, BL) == y * (1 # 1000).
+Proof. exact csf_instr_true. Qed.
+Print Assumptions C19_create_solution_from_instruction.
